@@ -883,7 +883,7 @@ func main() {
 		sort.Slice(vs, func(i, j int) bool { return vs[i].Key < vs[j].Key })
 		rep := map[string]interface{}{
 			"evaluations": evals, "distinct_nontrivial": evals,
-			"rule": "a fixed API (3 operations, 4 definitions, every parameter location, enum, response header, security scheme, 2 tags) whose 25 spec-provided names are slots; each spec puts 6-11 names drawn from Go keywords, predeclared identifiers, names the generator itself declares, initialisms in every case, non-ASCII text of every general category and random compositions into random slots (kept pairwise distinct after mangling and valid for the slot), is validated by go-openapi/validate, then generate server+client+cli+model (flatten/expand/skip-tag-packages/strict-responders/struct-tags variants) and go build ./...; failures are attributed to single names by re-running with one hostile name. 16 collision experiments (definitions, properties, id-less paths, operation ids, query parameters, tags that collide after mangling): outcome must be a generation error or distinct representation. Representation: handler registrations in the API builder, ClientService methods, model types of the models package as go list builds it.",
+			"rule":    "a fixed API (3 operations, 4 definitions, every parameter location, enum, response header, security scheme, 2 tags) whose 25 spec-provided names are slots; each spec puts 6-11 names drawn from Go keywords, predeclared identifiers, names the generator itself declares, initialisms in every case, non-ASCII text of every general category and random compositions into random slots (kept pairwise distinct after mangling and valid for the slot), is validated by go-openapi/validate, then generate server+client+cli+model (flatten/expand/skip-tag-packages/strict-responders/struct-tags variants) and go build ./...; failures are attributed to single names by re-running with one hostile name. 16 collision experiments (definitions, properties, id-less paths, operation ids, query parameters, tags that collide after mangling): outcome must be a generation error or distinct representation. Representation: handler registrations in the API builder, ClientService methods, model types of the models package as go list builds it.",
 			"samples": samples, "coverage": cov, "violations": vs, "builds": builds, "model_cases": len(coq) + planCases, "name_cases": nameCases,
 		}
 		b, _ := json.MarshalIndent(rep, "", " ")
